@@ -251,7 +251,7 @@ def run_scenario(spec, out):
                     elif op in ("cli", "cli-existing-output", "cli-wrong-key"):
                         if op == "cli-existing-output":
                             with open(allowed, "wb") as f:
-                                f.write(b"old")
+                                f.write(b"old" * 4000)
                             with open(allowed + ".tmp", "wb") as f:
                                 f.write(b"precious")
                         ks = info["wrong_keystore"] if op == "cli-wrong-key" else info["keystore"]
